@@ -102,7 +102,7 @@ def rule_idemp(ctx, shapes=None):
 
 RULES = [
     ("MOVE", rule_move, 3),
-    ("IDEMP", rule_idemp, 5),
+    ("IDEMP", rule_idemp, 3),
     ("IDEMP-SHAPES", lambda ctx: None, 6),
     ("IDEMP-CHECKSUM", lambda ctx: None, 10),
     ("IDEMP-LOWER", lambda ctx: None, 6),
